@@ -2,15 +2,68 @@ package lx
 
 import (
 	"context"
+	"sort"
+	"sync"
+	"time"
 
 	ledger "github.com/formancehq/ledger/internal"
 	ledgercontroller "github.com/formancehq/ledger/internal/controller/ledger"
 	"github.com/formancehq/ledger/internal/storage/common"
 )
 
+// GateTally counts, per gated read of the menu, how often it was rejected for a disabled
+// feature and how often it was answered with every needed feature enabled (keys
+// "<read>:rejected", "<read>:answered"; "<read>:answered-without-feature" and
+// "<read>:wrong-error" accompany the mismatches). It is what the vacuity guard of C35
+// reads: a gate that was never observed closed was not checked.
+type GateTally struct {
+	mu sync.Mutex
+	N  map[string]int64
+}
+
+func NewGateTally() *GateTally { return &GateTally{N: map[string]int64{}} }
+
+func (t *GateTally) add(k string) {
+	if t == nil {
+		return
+	}
+	t.mu.Lock()
+	t.N[k]++
+	t.mu.Unlock()
+}
+
+// Snapshot returns a copy of the counters.
+func (t *GateTally) Snapshot() map[string]int64 {
+	t.mu.Lock()
+	defer t.mu.Unlock()
+	out := make(map[string]int64, len(t.N))
+	for k, v := range t.N {
+		out[k] = v
+	}
+	return out
+}
+
+// VolumeGateReads names the date-bounded volumes reads of the gate menu: every shape of
+// the date bounds the volumes API accepts (end only, start only, both) in both date modes.
+// All of them are rebuilt from the moves history, so all of them need MOVES_HISTORY.
+func VolumeGateReads() []string {
+	var out []string
+	for _, shape := range []string{"pit", "oot", "window"} {
+		for _, mode := range []string{"effective", "insertion"} {
+			out = append(out, "volumes-"+shape+"-"+mode)
+		}
+	}
+	return out
+}
+
 // CheckFeatureGates: a read that needs a disabled feature must be rejected (missing
 // feature / invalid query), never answered (C35).
 func CheckFeatureGates(ctx context.Context, c ledgercontroller.Controller, ref *Ref, rep *Report) {
+	CheckFeatureGatesTally(ctx, c, ref, rep, nil)
+}
+
+// CheckFeatureGatesTally is CheckFeatureGates with the per-read counters.
+func CheckFeatureGatesTally(ctx context.Context, c ledgercontroller.Controller, ref *Ref, rep *Report, tally *GateTally) {
 	f := FeatOf(c.Info())
 	if len(ref.Txs) == 0 {
 		return
@@ -25,18 +78,76 @@ func CheckFeatureGates(ctx context.Context, c ledgercontroller.Controller, ref *
 	}
 	expect := func(sig string, needOK bool, err error) {
 		if needOK {
+			if err == nil {
+				tally.add(sig + ":answered")
+			}
 			return
 		}
 		if err == nil {
+			tally.add(sig + ":answered-without-feature")
 			rep.Add("feature:answered:"+sig, "%s answered although a feature it needs is disabled (%+v)", sig, f)
 		} else if !rejected(err) {
+			tally.add(sig + ":wrong-error")
 			rep.Add("feature:error-kind:"+sig, "%s failed with %v instead of a missing-feature error", sig, err)
+		} else {
+			tally.add(sig + ":rejected")
 		}
 	}
-	// PIT volumes need MOVES_HISTORY
-	_, err := ListVols(ctx, c, common.ResourceQuery[ledger.GetVolumesOptions]{PIT: ltp(t)})
-	expect("volumes-pit", f.MovesHistory, err)
-	_, err = c.GetAggregatedBalances(ctx, common.ResourceQuery[ledger.GetAggregatedVolumesOptions]{PIT: ltp(t), Opts: ledger.GetAggregatedVolumesOptions{UseInsertionDate: true}})
+	// Date-bounded volumes need MOVES_HISTORY, whatever the shape of the bounds: end only
+	// (PIT), start only (OOT), both (window), on effective or insertion dates. The bounds
+	// range over every recorded transaction date, oldest first, so that a start-only read
+	// answered from an empty moves table is a wrong answer (the history has transactions
+	// at or after the bound), never a vacuously right one.
+	var dates []time.Time
+	seen := map[int64]bool{}
+	for _, x := range ref.Txs {
+		for _, d := range []time.Time{x.TS, x.InsertedAt} {
+			if !seen[d.UnixMicro()] {
+				seen[d.UnixMicro()] = true
+				dates = append(dates, d)
+			}
+		}
+	}
+	sort.Slice(dates, func(i, j int) bool { return dates[i].Before(dates[j]) })
+	for _, useIns := range []bool{false, true} {
+		useIns := useIns
+		mode := "effective"
+		if useIns {
+			mode = "insertion"
+		}
+		opts := ledger.GetVolumesOptions{UseInsertionDate: useIns}
+		dateOf := func(x *RefTx) time.Time {
+			if useIns {
+				return x.InsertedAt
+			}
+			return x.TS
+		}
+		_, err := ListVols(ctx, c, common.ResourceQuery[ledger.GetVolumesOptions]{PIT: ltp(t), Opts: opts})
+		expect("volumes-pit-"+mode, f.MovesHistory, err)
+		for _, oot := range dates {
+			oot := oot
+			vols, err := ListVols(ctx, c, common.ResourceQuery[ledger.GetVolumesOptions]{OOT: ltp(oot), Opts: opts})
+			expect("volumes-oot-"+mode, f.MovesHistory, err)
+			if f.MovesHistory {
+				// enabled: the start-only read is answered, and equals the reference fold
+				// of the transactions dated at or after the bound
+				if err != nil {
+					rep.Add("vol:error:since-"+mode+":"+Classify(err), "GetVolumesWithBalances(OOT=%s, %s) with MOVES_HISTORY=ON: %v", oot.Format(time.RFC3339Nano), mode, err)
+				} else {
+					checkVolumeListing(vols, ref.Volumes(func(x *RefTx) bool { return !dateOf(x).Before(oot) }), "since-"+mode, rep)
+				}
+				continue // windows on an enabled ledger are compared by CheckPIT
+			}
+			for _, pit := range dates {
+				if pit.Before(oot) {
+					continue
+				}
+				_, err := ListVols(ctx, c, common.ResourceQuery[ledger.GetVolumesOptions]{PIT: ltp(pit), OOT: ltp(oot), Opts: opts})
+				expect("volumes-window-"+mode, false, err)
+			}
+		}
+	}
+	_, err := c.GetAggregatedBalances(ctx, common.ResourceQuery[ledger.GetAggregatedVolumesOptions]{PIT: ltp(t), Opts: ledger.GetAggregatedVolumesOptions{UseInsertionDate: true}})
 	expect("aggregate-pit-insertion", f.MovesHistory, err)
 	_, err = c.GetAggregatedBalances(ctx, common.ResourceQuery[ledger.GetAggregatedVolumesOptions]{PIT: ltp(t)})
 	expect("aggregate-pit-effective", f.MovesHistory && f.EffectiveVolumes, err)
